@@ -269,7 +269,10 @@ def Pool.all (p : Pool) : List Commit := p.gossiped ++ p.nonGossiped
 def hasCommit (l : List Commit) (c : Commit) : Bool := l.any (fun d => d.block == c.block && d.signer == c.signer)
 
 def Pool.has (p : Pool) (c : Commit) : Bool := hasCommit p.gossiped c || hasCommit p.nonGossiped c
-def Pool.add (p : Pool) (c : Commit) : Pool := { p with nonGossiped := p.nonGossiped ++ [c] }
+/-- `Pool.Add`: check and insertion are one step under the pool mutex (fix: concurrent gossip validators could
+pool the same commit twice); a commit that is already pooled is not added again -/
+def Pool.add (p : Pool) (c : Commit) : Pool :=
+  if p.has c then p else { p with nonGossiped := p.nonGossiped ++ [c] }
 def Pool.size (p : Pool) : Nat := p.gossiped.length + p.nonGossiped.length
 def Pool.get (p : Pool) (h : Nat) : List Commit :=
   p.gossiped.filter (fun c => c.height == h) ++ p.nonGossiped.filter (fun c => c.height == h)
